@@ -35,7 +35,10 @@ LEVEL_TEXT = (
     "right-hand side / factorisation arguments / DFT divisor assembled by Linear-, Matrix-, CircularConvolve-solver are that system for "
     "every scale, weighting, list of C_i and state (z,u); FBlock's division by 2a is an equivalence exactly for unweighted losses; "
     "G0's system carries 2*omega*rho_1 on the first term: equivalent iff (2 omega - 1) rho_1 C_1^H(C_1 x - v_1) = 0 (proved), "
-    "counterexample for omega = 2 (proved).  Back ends (cg, factorisation/Woodbury, Sherman-Morrison) are covered by C14."
+    "counterexample for omega = 2 (proved).  Round 2: uniqueness of the solution of the normal equations when some C_i is injective "
+    "with rho_i > 0 (all exact solvers return the same x); the objective GenericSubproblemSolver hands to scipy is the x-step objective, "
+    "its exact minimisers are the solutions of the normal equations; rel_res is invariant under the scaling by 1/(2a) resp. 1/(2 omega rho_1) "
+    "used by the block-circulant solvers.  Back ends (scico cg, jax cg, factorisation/Woodbury, Sherman-Morrison) are covered by C14."
 )
 LEVEL_NOTE = (
     "Trusted: Lean kernel + Mathlib axioms; operator arithmetic of scico.linop (rho*C.gram_op, sums: property C05), adjoints (C01), "
@@ -51,7 +54,9 @@ RULE = (
     "used - Hessian, prox, an ADMM built on it - and then rescaled by c*L, L*c, L/c, set_scale, twice), circ, fblock, g0: random sizes (n<=5, "
     "K<=3, N<=6), real/complex, f none/Matrix/Diagonal/CircularConvolve/Identity forward operator, scale in {0.25,0.5,1,2}, weights "
     "none/positive/with zeros, 1-3 C_i (Identity, Diagonal, MatrixOperator, CircularConvolve, circular FiniteDifference), rho dyadic>0, "
-    "random z,u,x0; a case is non-trivial when the normal-equation matrix is not a multiple of the identity; distinct by full input."
+    "random z,u,x0; the first cases of every stream are drawn until they match a list of required configurations (STRATA: complex + "
+    "mixed Diagonal/Matrix C_i, weighted wide A on the Woodbury path, f=None + matrix C_i, G0 with three different rho, ...); "
+    "a case is non-trivial when the normal-equation matrix is not a multiple of the identity; distinct by full input."
 )
 ASSUMPTIONS = [
     "scico.linop operator arithmetic (scalar * gram_op, +) denotes the pointwise construction (property C05) and .adj is the adjoint (C01)",
